@@ -378,6 +378,7 @@ def c12(ctx, rep):
     # and a $9$-looking token the decoder neither refuses nor decodes takes the rest of the file with it
     checks_ip._gate_content(ctx, m, rep, "C12")
     checks_ip._stage_families(ctx, m, rep, "C12")
+    import_clauses(ctx, rep, "C12", "C11", checks_rx.c11, ("C11.pattern-", "C11.map-", "C11.context-", "C11.body-is-the-alternation"))  # the AS stage touches listed numbers standing alone, nothing else
     import_clauses(ctx, rep, "C12", "C19", c19, ("C19.list-options",))  # an empty or re-split list entry becomes a pattern that matches between all characters
     import_clauses(ctx, rep, "C12", "C05", checks_ip.c05, ("C05.preserved-list",))
     import_clauses(ctx, rep, "C12", "C18", _misc.c18, ("C18.valid-alphabet", "C18.valid-min-length", "C18.validated-before-tables", "C18.refusal"), with_k3=False)
@@ -1062,6 +1063,8 @@ def c19(ctx, rep):
     import_clauses(ctx, rep, "C19", "C16", c16, ("C16.mkdirs-guard",), required=False)
     from . import checks_ip as _ip
     import_clauses(ctx, rep, "C19", "C02", _ip.c02, ("C02.result-int", "C02.undo."))
+    from .ipmodel import IpModel as _IpModel19
+    _ip._gate_content(ctx, _IpModel19(ctx), rep, "C19")  # "--preserve-private-addresses equals listing the three RFC 1918 networks": the gate knows listed networks and masks, nothing else
     _ip._salt_defaulting(ctx, rep, "C19")  # "undo without salt is rejected" means a given salt — the empty string too — is the salt used
     # "documented defaults apply": the default tables are what the source says for the whole life of the process (no constructor adds to them)
     from .checks_misc import argument_mutation_rule
@@ -1176,6 +1179,10 @@ def c19(ctx, rep):
     xp = ("param", f_hb.mparams[0])
     val = ("call", ("builtin", "int"), (xp,), ())
     ok_ret = ok_guard = False
+    rets = [path for path in A.paths(f_hb).paths if path.kind == "return" and path.feasible()]
+    # EVERY accepted value is int(x) and went through the range test (a second way out that converts first is a second accepted set)
+    all_ret = bool(rets) and all(path.returned() == val and any((t[0] == "boolop" and t[1] == "or" and not pol) or (t[0] == "compare" and len(t[1]) == 2 and pol) for t, pol in path.atoms()) for path in rets)
+    rep.ob("C19.host-bits-every-return", "host_bits", all_ret, "every returning path of host_bits returns int(x) after the range test (returning paths: %s)" % [show(path.returned())[:40] for path in rets], W(f_hb), key="C19.host-bits-every-return|host_bits")
     for path in A.paths(f_hb).paths:
         if path.kind == "return":
             ok_ret = path.returned() == val
